@@ -26,7 +26,8 @@ EXPLANATION = (
 )
 # obligations added during the build phase (seeding rounds, twins, mutation analysis)
 ADDED_IN_BUILD = " Also: (f) SPEC-EQ - the expressions that reach the formatters equal spec/dense.py as normalised by the same engine (X.index[M] after reset_index(drop=True) and X.columns[M] after `columns = range(...)` are read as np.flatnonzero(M)); the subset converter reports column POSITIONS (column-positions); the neighbour comparison never uses a circular shift (np.roll: no-wrap-around); DENSE-FILL is decided for three spellings (padded bounds list, two parallel lists, scatter + cumsum with an entailment test of its filter); every call of sktime's check_series passes allow_index_names=True so the index handed to sparse_to_dense keeps its names (C11.b re-run). DENSE-FILL of the subset detector (C16.c): the column index is the anomaly's own icolumns entry, the dense frame is built from the label matrix by position (not from a dict keyed by column labels)."
-EXPLANATION = EXPLANATION + ADDED_IN_BUILD
+ADDED_IN_ROUND_9 = ' Round 9: DENSE-FILL no-detections - a fast path of ChangeDetector.sparse_to_dense for an empty list of changepoints must label every row 0, one label per row, on the index handed in; the general path keeps all obligations.'
+EXPLANATION = EXPLANATION + ADDED_IN_BUILD + ADDED_IN_ROUND_9
 
 ASSUMPTIONS = [
     "Python's ast module and evaluation-order/argument-binding semantics as implemented in skverif/symex.py",
